@@ -33,7 +33,7 @@ Failing(e) ==
        Cl(P(e, "C13.noFalsePositive"), \A k \in qtp : Cls[k] \in gp) \cup
        Cl(P(e, "C13.len"), e.len_post = Cardinality(gp)) \cup
        Cl(P(e, "C19.isEmpty"), e.empty_post <=> (gp = {})) \cup
-       Cl("C19.clone", e.twin_ok) \cup
+       Cl("C19.clone", e.twin_ok) \cup LockStepClause(e) \cup
        (IF e.op.name = "ins" THEN
            Cl(P(e, "C13.known"), (e.res = "known") <=> (e.cls \in g)) \cup
            Cl(P(e, "C13.full"), (e.res = "full") <=> (e.cls \notin g /\ e.len_pre = Cap))
